@@ -3532,7 +3532,7 @@ fn gen_op(r: &mut Rng, m: &mut Model) -> Op {
         return Op::SimilarVec { vec: gen_vec(r, m.dim), k, metric };
     }
     loop {
-        match r.below(196) {
+        match r.below(202) {
             0..=5 => {
                 let name = r.pick(TABLE_NAMES).to_string();
                 let n = 1 + r.below(4);
@@ -3685,8 +3685,8 @@ fn gen_op(r: &mut Rng, m: &mut Model) -> Op {
                 let items = (0..n).map(|_| (if !m.keys.is_empty() && r.bool() { r.pick(&m.keys).clone() } else { vkey(r) }, gen_vec(r, m.dim))).collect();
                 return Op::EmbedBatch { coll: if r.chance(2, 3) { Some(r.pick(COLLECTIONS).to_string()) } else { None }, items };
             }
-            184..=195 if !m.nodes.is_empty() => {
-                let algo = r.below(6) as u8;
+            184..=201 if m.nodes.len() >= 2 => {
+                let algo = if r.chance(1, 3) { 0 } else { r.below(6) as u8 };
                 let opt = |r: &mut Rng| r.chance(2, 5);
                 let damping = if algo == 0 && opt(r) { Some(*r.pick(&[0.5, 0.85, 0.9, 0.25])) } else { None };
                 let tolerance = if (algo == 0 || algo == 3) && opt(r) { Some(*r.pick(&[1e-6, 1e-3, 1e-9])) } else { None };
@@ -4246,6 +4246,9 @@ fn main() {
             ("statements", args.by_tier(1_000, 20_000)),
             ("both_ok", 500),
             ("statements[select-group-by]", 100),
+            ("statements[graph-pagerank]", 20),
+            ("programs_with_hnsw_index_built", 20),
+            ("similar_dot_product_with_index_built", 10),
             ("groups_compared", 150),
             ("grouped_aggregates_over_null_cells_agreed", 15),
             ("groups_with_null_in_key_agreed", 15),
